@@ -17,11 +17,14 @@
    The uploader and the copier of the same blob run concurrently: the copy of b may overtake the queue.Set of b
    (the row then outlives the delivery - harmless, it is re-copied and deleted after the next restart).
    Faults (destination error / wrong size / error after storing, source read corrupt / missing / error) may
-   happen while `faulty`; a crash loses the memory and every call in flight. *)
+   happen while `faulty`; a crash loses the memory and every call in flight.
+   The copier here may start the copy of any pending blob at any time; how runSync hands the pending blobs to
+   its worker pool through bounded channels (and how that can block for ever) is SyncPool.tla. *)
 EXTENDS Naturals, FiniteSets
 
 CONSTANTS Blobs, MaxCrashes,
           Deviations   \* subset of {"DeleteRowBeforeWrite", "NoQueueReload", "EnqueueBeforeSourceAccept"}
+                       \* (SyncPool.tla, the pass / worker-pool structure of the copy loop, adds "BlockingFeedSmallChannel")
 
 VARIABLES src,        \* blobs stored by the source
           dst,        \* blobs whose bytes the destination holds
